@@ -6,6 +6,7 @@ CONSTANTS
   MAXLINES = 3
   MAXPIN = 2
   MAXDEPTH = 5
+  SUBIMPLS = {}
 SPECIFICATION Spec
 INVARIANT WF
 PROPERTY CloneIdentity
